@@ -5,6 +5,7 @@ import re
 from engine import cc, cfg, lib
 from engine.facts import erase, short_loc, CACHE
 from engine.lib import A, qe
+from engine.auto import cond_shape
 from engine.table import Unknown
 from rules.common import Oracle, ret_value
 from rules import protocol, C03
@@ -17,6 +18,9 @@ F_CNT = C03.F_CNT
 
 def c07b(ctx, tu):
     protocol.report(ctx, tu, lambda r: r in ("C07.b", "C01.b"))
+    merged = not tu.find(A["report_forbidden_call"])
+    if merged:
+        return c07b_merged(ctx, tu)
     for fn in tu.need(A["report_forbidden_call"]):
         sends = cfg.find_events(fn, lambda e: e["e"] == "call" and qe(e) == A["send_report"])
         ok = len(sends) == 1
@@ -49,6 +53,45 @@ def c07b(ctx, tu):
         ctx.ob("C07.b.args", A["run_actions"], ok, pattern=fn.pat, unit=tu.name, inst=fn.q,
                detail="" if ok else "the forbidden-call report must be given this expectation's name and location "
                "and the actual arguments of the call")
+
+
+def c07b_merged(ctx, tu):
+    """report_forbidden_call has been merged into its only caller: the same obligations are read off run_actions -
+    on the is_forbidden() branch exactly one fatal report, with this expectation's loc, whose text streams this
+    expectation's name and the actual arguments of the call."""
+    n = 0
+    for fn in tu.need(A["run_actions"], 5):
+        n += 1
+        guard = [(bid, cond_shape(cfg.cond_of(fn, bid))[1]) for bid in fn.blocks if cfg.cond_of(fn, bid) is not None and
+                 lib.tree_name(cond_shape(cfg.cond_of(fn, bid))[0]) == A["is_forbidden"]]
+        sends = [(b, i, e) for b, i, e in cfg.find_events(fn, lambda e: e["e"] == "call" and qe(e) in (A["send_report"], A["send"]))
+                 if len(guard) == 1 and cfg.edge_dominates(fn, (guard[0][0], 0 if guard[0][1] else 1), b)]
+        ok = len(guard) == 1 and len(sends) == 1
+        why = "expected exactly one report on the is_forbidden() branch"
+        if ok:
+            bid, i, e = sends[0]
+            a = e["args"]
+            ok = lib.severity_of(a[0], {}) == "fatal"
+            why = "forbidden calls must be reported with severity fatal"
+            if ok:
+                ok = "call_matcher_base" in str(a[1]) and "::loc" in str(a[1])
+                why = "the report must carry the forbidding expectation's location"
+            if ok:
+                tgt = fn.blocks[guard[0][0]]["succ"][0 if guard[0][1] else 1]
+                ok = tgt is not None and fn.exit not in cfg.reach(fn, tgt, avoid_blocks={bid}) or \
+                    all(lib.noreturn_call(tu, x) for x in [])
+                why = "a path through the forbidden branch sends no report"
+        ctx.ob("C07.b.report", A["run_actions"] + " (forbidden branch)", ok, pattern=fn.pat, unit=tu.name, inst=fn.q,
+               detail="" if ok else why)
+        streamed = str([x for b, x in fn.events() if x["e"] == "call" and x.get("op") == "<<"])
+        decls = {d["var"]: d for b, d in fn.events() if d["e"] == "decl"}
+        vals = [v for v, d in decls.items() if "params_string" in str(d.get("init")) and "'param', 0" in str(d.get("init"))]
+        ok2 = "::name" in streamed and "call_matcher_base" in streamed and \
+            (("params_string" in streamed and "'param', 0" in streamed) or any(("['var', %d," % v) in streamed for v in vals))
+        ctx.ob("C07.b.args", A["run_actions"], ok2, pattern=fn.pat, unit=tu.name, inst=fn.q,
+               detail="" if ok2 else "the forbidden-call report must be given this expectation's name and location "
+               "and the actual arguments of the call")
+    return n
 
 
 def c07c(ctx, tu):
